@@ -49,6 +49,8 @@ def judge_order(lat, cap, origin):
             break
     members = view.members
     n = len(members)
+    if origin != 'quiescent':
+        common.previsit(members, view.sh, ('upper_neighbors', 'lower_neighbors', 'index', 'dindex'))
     dorder = sorted(range(n), key=lambda k: longlex_key(view.masks[k][0]))
     drank = {k: r for r, k in enumerate(dorder)}
     for k, c in enumerate(members):
